@@ -130,6 +130,10 @@ def build_jobs(tier, seed, stats, want_ops=True):
                 st = sg.around_with_flat_gap(rd)
                 if st is not None:
                     steps.ev_apply(b, rd, di, st, tag="around")
+            for _ in range(12):
+                st = sg.around_balanced_open_gap(rd)
+                if st is not None:
+                    steps.ev_apply(b, rd, di, st, tag="openGap")
             for _ in range(40):
                 st = sg.around_wrap_extended(rd)
                 if st is not None:
